@@ -126,6 +126,14 @@ def _gensym():
     return f"_ptera__{next(_IDX)}"
 
 
+def _forget(node, *syms):
+    """Delete temporary variables, so that they do not keep objects alive."""
+    return ast.copy_location(
+        ast.Delete(targets=[ast.Name(id=sym, ctx=ast.Del()) for sym in syms]),
+        node,
+    )
+
+
 class ExternalVariableCollector(NodeVisitor):
     """Collect variables referred to but not defined in the given AST.
 
@@ -412,6 +420,7 @@ class PteraTransformer(NodeTransformer):
     def make_interaction(self, target, ann, value, orig=None, expression=False):
         """Create code for setting the value of a variable."""
         prelude = []
+        postlude = []
         alias = None
         if ann and isinstance(target, ast.Name):
             self._record_annotation(target, ann)
@@ -454,6 +463,7 @@ class PteraTransformer(NodeTransformer):
                         col_offset=orig.col_offset,
                     ),
                 ]
+                postlude = [_forget(orig, value_sym, index_sym)]
                 value_arg = ast.Name(id=value_sym, ctx=ast.Load())
                 slc = ast.Name(id=index_sym, ctx=ast.Load())
                 target = ast.Subscript(
@@ -515,6 +525,7 @@ class PteraTransformer(NodeTransformer):
                     lineno=orig.lineno,
                     col_offset=orig.col_offset,
                 ),
+                *postlude,
             ]
 
     def visit_body(self, stmts):
@@ -852,6 +863,7 @@ class PteraTransformer(NodeTransformer):
                         node,
                     )
                 )
+            accum.append(_forget(node, var_all))
             return accum
 
         def _unpack(elts):
@@ -892,6 +904,7 @@ class PteraTransformer(NodeTransformer):
                         node,
                     )
                 )
+            accum.append(_forget(node, *temps))
             return accum
 
         targets = node.targets
